@@ -16,11 +16,11 @@ KINDS = {
     'C01': ['coin-not-buildable', 'synced-height', 'total-balance', 'utxo-missing', 'utxo-extra', 'utxo-differs', 'utxo-duplicate',
             'utxo-confirmations', 'balance-total', 'balance-spendable', 'balance-wstaking', 'balance-wbinding',
             'address-balance-missing', 'address-balance-extra', 'address-balance-differs', 'use-wallet', 'api-error',
-            'free-not-quiescent', 'died', 'timeout', 'step-error'],
-    'C09': ['utxo-sbu', 'deposit-sbu', 'pending-deposit-missing', 'pending-deposit-extra', 'pending-deposit-differs',
+            'free-not-quiescent', 'trace-rejected', 'died', 'timeout', 'step-error'],
+    'C09': ['trace-rejected', 'utxo-sbu', 'deposit-sbu', 'pending-deposit-missing', 'pending-deposit-extra', 'pending-deposit-differs',
             'pending-set-missing', 'pending-set-extra', 'pending-unreadable', 'pending-not-settled', 'selected-pending-spent',
             'died', 'timeout', 'step-error'],
-    'C10': ['deposit-missing', 'deposit-extra', 'deposit-differs', 'pending-deposit-missing', 'pending-deposit-extra', 'pending-deposit-differs',
+    'C10': ['trace-rejected', 'deposit-missing', 'deposit-extra', 'deposit-differs', 'pending-deposit-missing', 'pending-deposit-extra', 'pending-deposit-differs',
             'binding-target', 'balance-wstaking',
             'balance-wbinding', 'balance-spendable', 'withdraw-sequence', 'withdraw-boundary', 'died', 'timeout', 'step-error'],
     'C12': ['address-used', 'address-not-listed', 'died', 'timeout', 'step-error'],
@@ -73,6 +73,57 @@ def regress_jobs(pid, scratch):
         out.append(dict(u=uni, h=json.loads(t['histories'][0]), mode=r.get('mode', ''), opt=r.get('opt', {}),
                         src='regress/' + os.path.basename(p)))
     return out
+
+
+def judge_traces(scratch, jobs, results):
+    """code -> spec: the lines recorded by mode 'trace' replays are judged by TLC against spec/WalletTrace.tla
+    (same universe module and constants as the generator that produced the history).  A trace that TLC cannot
+    consume to its end turns the result into a failure of kind 'trace-rejected'.  Returns (judged, rejected, tlc states)."""
+    import concurrent.futures, re
+    todo = [i for i, (j, r) in enumerate(zip(jobs, results)) if j.get('mode') == 'trace' and r and r.get('lines')]
+    cfgs = {}
+
+    def one(i):
+        j, r = jobs[i], results[i]
+        tj = j['trace']
+        key = (tj['cfg'], tj['pend'])
+        text = '\n'.join(json.dumps(l) for l in r['lines']) + '\n'
+        mod = '---- MODULE TR ----\nEXTENDS %s, WalletTrace\n====\n' % tj['module'][:-4]
+        t = vlib.tlc(cfgs[key], 'TR.tla', scratch, overrides=tj['overrides'], workers=1, timeout=900,
+                     extra_files={'TR.tla': mod, 'trace.ndjson': text})
+        m = re.search(r'"MAXL", (\d+), (\d+)', t['log'])
+        acc = bool(t['violated'] and 'NotAccepted' in t['violated'])
+        return i, acc, (int(m.group(1)) if m else None), t
+    for i in todo:
+        tj = jobs[i]['trace']
+        key = (tj['cfg'], tj['pend'])
+        if key not in cfgs:
+            cfgs[key] = vlib.trace_cfg(tj['cfg'], scratch, tj['pend'])
+    judged = rejected = states = 0
+    with concurrent.futures.ThreadPoolExecutor(max(2, vlib.NPROC - 2)) as ex:
+        for i, acc, maxl, t in ex.map(one, todo):
+            r = results[i]
+            lines = r.pop('lines')
+            r['trace_lines'] = len(lines)
+            states += t.get('distinct') or 0
+            if acc:
+                judged += 1
+                continue
+            if maxl is None or t['rc'] == 124 or (t['error'] and not t['violated']):
+                r.update(ok=False, infra=True, err='harness: trace judge failed: rc=%s %s' % (t['rc'], t['log'][-800:]))
+                continue
+            judged += 1
+            rejected += 1
+            ctx = [json.dumps(l) for l in lines[max(0, maxl - 5):maxl]]
+            r['ok'] = False
+            r['trace'] = lines
+            r.setdefault('diffs', []).append(dict(kind='trace-rejected', wallet='', what='line %d of %d (%s)' % (maxl, len(lines), lines[maxl - 1].get('ev') if 0 < maxl <= len(lines) else '?'),
+                                                  want='every recorded line is explained by a step of spec/WalletTrace.tla and every commit carries the state the specification computes',
+                                                  got='longest explained prefix ends before this line; context: ' + ' | '.join(ctx)))
+    for j, r in zip(jobs, results):
+        if r:
+            r.pop('lines', None)
+    return judged, rejected, states
 
 
 def kinds_of(res):
@@ -224,7 +275,10 @@ def follower_check(pid, tier, scratch, replay, plan):
             uni = dict(r['universe'])
             uni.update(g.get('universe_extra', {}))
             for h in take:
-                jobs.append(dict(u=uni, h=json.loads(h), mode=g.get('mode', ''), opt=dict(g.get('opt', {}), seed=vlib.seed() * 7 + len(jobs)), src=g['cfg'] + (' (free)' if g.get('mode') == 'free' else ''),
+                if g.get('mode') == 'trace':
+                    tr = dict(cfg=g['cfg'], module=g['module'], overrides={k: v for k, v in ov.items() if k not in ('GenDepth', 'GenRandom')},
+                              pend=g.get('trace_pend', ov.get('Lifecycle') != 'TRUE'))
+                jobs.append(dict(u=uni, h=json.loads(h), mode=g.get('mode', ''), trace=tr if g.get('mode') == 'trace' else None, opt=dict(g.get('opt', {}), seed=vlib.seed() * 7 + len(jobs)), src=g['cfg'] + (' (free)' if g.get('mode') == 'free' else ''),
                                  ignore=PENDING_KINDS if ov.get('Lifecycle') == 'TRUE' else []))
             if not sim:
                 states += r.get('distinct', 0)
@@ -243,14 +297,24 @@ def follower_check(pid, tier, scratch, replay, plan):
         raise Infra('no behaviours generated')
     # 3. conformance: replay into the real code
     results = replay_jobs(scratch, jobs)
+    tj, trej, tst = judge_traces(scratch, jobs, results)
     # a verdict needs reproducible behaviour: anything that died or timed out is re-run alone
     # ... and so is anything whose verdict rests on a time limit (a loaded machine must not raise an alarm)
-    TIMED = {'free-not-quiescent', 'timeout'}
+    TIMED = {'free-not-quiescent', 'timeout', 'trace-rejected'}
     redo = [i for i, r in enumerate(results) if r is None or r.get('died') or r.get('infra') or (set(kinds_of(r)) & TIMED)]
     flaky = 0
     if redo and len(redo) <= 40:
         again = replay_jobs(scratch, [jobs[i] for i in redo])
+        a2, r2, s2 = judge_traces(scratch, [jobs[i] for i in redo], again)
+        tj, tst = tj + a2, tst + s2
         for i, r in zip(redo, again):
+            if r is not None and 'trace-rejected' in kinds_of(results[i]) and 'trace-rejected' not in kinds_of(r) and not r.get('died'):
+                # a rejection that does not come back on the same history (the schedule is the Go runtime's): no verdict
+                note = vlib.save_replay(pid, 'note-%s-%s' % (tier, vlib.short_hash(json.dumps(jobs[i]['h']))),
+                                        dict(property=pid, note='trace rejected once, accepted when the same history was replayed again (no verdict)',
+                                             universe=jobs[i]['u'], history=jobs[i]['h'], mode='trace', result=results[i]))
+                results[i] = dict(results[i], infra=True, err='harness: trace rejected once, accepted when re-run (kept in %s): ' % note + json.dumps(results[i].get('diffs'))[:1500])
+                continue
             if r is not None and not r.get('died'):
                 flaky += 1 if r.get('ok') or not (set(kinds_of(r)) & TIMED) else 0
                 r['index'] = i
@@ -275,6 +339,8 @@ def follower_check(pid, tier, scratch, replay, plan):
         violations.append((job, res))
     if len(infra) > max(2, len(jobs) // 20):
         raise Infra('%d of %d replays failed for infrastructure reasons, e.g. %s' % (len(infra), len(jobs), (infra[0][1] or {}).get('err')))
+    for job, res in infra[:4]:
+        print('note: no verdict for one behaviour (%s): %s' % (job['src'], ((res or {}).get('err') or 'no result')[:700]))
     # 4. report
     distinct_acts = len(set(describe(j.get('desc', j['h'])) for j in jobs))
     samples = [dict(source=j['src'], history=describe(j.get('desc', j['h'])), quiescent_points_compared=(r or {}).get('compared'))
@@ -303,6 +369,8 @@ def follower_check(pid, tier, scratch, replay, plan):
     cov = dict(states=max(states, 1), transitions=max(transitions, 1), traces_validated_against_impl=len(jobs) - len(infra),
                samples=samples, quiescent_points_compared=compared, distinct_histories=distinct_acts,
                regression_histories=n_regress, model_runs=mc_runs, generator_runs=gen_runs,
+               free_running_traces_judged_by_tlc=tj, trace_judge_states=tst,
+               trace_spec='spec/WalletTrace.tla: every chain action, scheduling point and database commit of a free-running replay is consumed by TLC; each commit line carries synced chain, status records, rescan cursors, mined balances and pending set read through the committing transaction',
                replays_failed_for_infrastructure=len(infra), died_once_but_not_when_rerun_alone=flaky, behaviours_with_only_other_properties_diffs=other,
                known_finding_hits={k: len(v) for k, v in known_hits.items()},
                decided_diff_kinds=sorted(own), exhaustive=False,
@@ -348,8 +416,15 @@ PLAN_C01 = dict(
               thorough=[EXH(6, 3000), SIM(1200, 16), SIM(600, 18, **MS)]),
           # follower running freely: block steps overlap further chain changes, also in the middle of a step
           gen('Gen_Pay.cfg', 'MC_Pay.tla', mode='free',
-              quick=[SIM(40, 16, **MS)],
+              quick=[SIM(15, 16, **MS)],
               thorough=[SIM(1500, 18, **MS), SIM(1000, 18)]),
+          # ... and with every chain action, scheduling point and commit recorded and judged by TLC (spec/WalletTrace.tla)
+          gen('Gen_Pay.cfg', 'MC_Pay.tla', mode='trace',
+              quick=[SIM(40, 16, **dict(MS, **P))],
+              thorough=[SIM(1200, 18, **dict(MS, **P)), SIM(800, 18, **P)]),
+          gen('Gen_In.cfg', 'MC_In.tla', mode='trace',
+              quick=[SIM(25, 16, **P)],
+              thorough=[SIM(800, 18, **P)]),
           gen('Gen_Stake.cfg', 'MC_Stake.tla', universe_extra=STAKE_X, mode='free',
               quick=[SIM(30, 16)],
               thorough=[SIM(1000, 18, **MS)])],
@@ -369,7 +444,18 @@ PLAN_C09 = dict(
               thorough=[SIM(600, 14, **P)]),
           gen('Gen_In.cfg', 'MC_In.tla',
               quick=[SIM(80, 14, **P)],
-              thorough=[EXH(6, 3000, **P), SIM(2000, 16, **P)])],
+              thorough=[EXH(6, 3000, **P), SIM(2000, 16, **P)]),
+          # free-running follower, every commit's pending set judged by TLC against the interleaving that really happened
+          gen('Gen_Pay.cfg', 'MC_Pay.tla', mode='trace',
+              quick=[SIM(40, 16, **P)],
+              thorough=[SIM(1500, 18, **P)]),
+          gen('Gen_Stake.cfg', 'MC_Stake.tla', universe_extra=STAKE_X, mode='trace',
+              quick=[SIM(30, 16, **P)],
+              thorough=[SIM(1000, 18, **dict(MS, **P))]),
+          # announcements racing with a wallet import (F-C09-2 was found here): without removals the model's pending set is exact
+          gen('Gen_Pay.cfg', 'MC_Pay.tla', mode='trace', trace_pend=True, filter=free_runnable,
+              quick=[SIM(60, 16, **dict(IMPORT_ONLY, **P))],
+              thorough=[SIM(1500, 18, **dict(IMPORT_ONLY, **P))])],
     assume=['theme "incoming" has stranger-owned inputs: a conflict on a stranger\'s coin is invisible to the follower (K-C09-2); the model transcribes the code\'s purge rule and the ideal (Settle) is compared separately'],
 )
 
@@ -381,13 +467,35 @@ PLAN_C10 = dict(
               thorough=[EXH(6, 3000), SIM(2500, 18), SIM(1000, 18, **P), SIM(1000, 20, **MS)]),
           gen('Gen_NBind.cfg', 'MC_NBind.tla', universe_extra=NBIND_X,
               quick=[SIM(60, 12), SIM(30, 12, **P)],
-              thorough=[SIM(1000, 14), SIM(500, 14, **P)])],
+              thorough=[SIM(1000, 14), SIM(500, 14, **P)]),
+          gen('Gen_Stake.cfg', 'MC_Stake.tla', universe_extra=STAKE_X, mode='trace',
+              quick=[SIM(30, 16, **MS)],
+              thorough=[SIM(1000, 18, **MS)])],
     assume=['withdrawals of new-style bindings are never mined: the pinned mass-core AddrIndexer cannot attach such a block (Amount.AddInt underflow); they occur as unconfirmed transactions only'],
 )
 
 
 def no_crash(h):
     return not any(s['a'] in ('Crash', 'Restart', 'RestartCrash', 'RemoveStepCrash') for s in h)
+
+
+def free_runnable(h):
+    """free-running replays wait for a background task only where a later API call on the same wallet needs it
+    done; such a wait cannot end while a step-by-step reorganisation that the history completes later is in
+    progress (a rescan does not pass heights on which node and wallet differ): those histories are left to the
+    gated replay"""
+    if not no_crash(h):
+        return False
+    inprog = False
+    for i, s in enumerate(h):
+        if s['a'] == 'ForkSlow':
+            inprog = True
+        elif s['a'] == 'ReorgStep' and s.get('done'):
+            inprog = False
+        elif inprog and s['a'] in ('ImportStep', 'RemoveStep', 'RemoveStepB'):
+            if any(t['a'] in ('Import', 'Remove') and t.get('w') == s.get('w') for t in h[i + 1:]):
+                return False
+    return True
 
 
 def one_task_at_a_time(h):
@@ -443,8 +551,8 @@ LEDGER_KINDS = ['coin-not-buildable', 'synced-height', 'total-balance', 'utxo-mi
                 'balance-total', 'balance-spendable', 'balance-wstaking', 'balance-wbinding',
                 'address-balance-missing', 'address-balance-extra', 'address-balance-differs',
                 'deposit-missing', 'deposit-extra', 'deposit-differs', 'use-wallet', 'api-error', 'died', 'timeout', 'step-error']
-KINDS['C07'] = LEDGER_KINDS + ['wallet-status', 'unready-wallet-selectable', 'importing-wallet-removable', 'quiescent-not-on-best', 'free-not-quiescent']
-KINDS['C08'] = LEDGER_KINDS + ['wallet-status', 'unready-wallet-selectable', 'removed-residue', 'free-not-quiescent']
+KINDS['C07'] = LEDGER_KINDS + ['wallet-status', 'unready-wallet-selectable', 'importing-wallet-removable', 'quiescent-not-on-best', 'free-not-quiescent', 'trace-rejected']
+KINDS['C08'] = LEDGER_KINDS + ['wallet-status', 'unready-wallet-selectable', 'removed-residue', 'free-not-quiescent', 'trace-rejected']
 LIFE = {'Lifecycle': 'TRUE', 'InitAbsent': '{"w2"}', 'Removable': '{"w1", "w2"}'}
 IMPORT_ONLY = {'Lifecycle': 'TRUE', 'InitAbsent': '{"w2"}', 'Removable': '{}'}
 REMOVE_ONLY = {'Lifecycle': 'TRUE', 'InitAbsent': '{}', 'Removable': '{"w1", "w2"}'}
@@ -460,11 +568,14 @@ PLAN_C07 = dict(
                         SIM(12000, 18, **dict(IMPORT_ONLY, GenWant='"import-reorg"')),
                         SIM(6000, 20, **dict(IMPORT_ONLY, GenWant='"import-reorg"', ImportBatch='2'))]),
           gen('Gen_Stake.cfg', 'MC_Stake.tla', universe_extra=STAKE_X,
-              quick=[SIM(60, 16, **IMPORT_ONLY)],
-              thorough=[SIM(1500, 18, **IMPORT_ONLY)]),
+              quick=[SIM(40, 16, **IMPORT_ONLY), SIM(40, 16, **dict(IMPORT_ONLY, InitAbsent='{"w1"}'))],
+              thorough=[SIM(1500, 18, **IMPORT_ONLY), SIM(1500, 18, **dict(IMPORT_ONLY, InitAbsent='{"w1"}')), SIM(800, 18, **dict(IMPORT_ONLY, InitAbsent='{"w1", "w2"}'))]),
           gen('Gen_Imp.cfg', 'MC_Imp.tla', mode='free',
-              quick=[SIM(40, 16, **IMPORT_ONLY)],
+              quick=[SIM(15, 16, **IMPORT_ONLY)],
               thorough=[SIM(1500, 18, **IMPORT_ONLY)]),
+          gen('Gen_Imp.cfg', 'MC_Imp.tla', mode='trace', filter=free_runnable,
+              quick=[SIM(40, 18, **dict(IMPORT_ONLY, **MS))],
+              thorough=[SIM(1500, 18, **dict(IMPORT_ONLY, **MS)), SIM(800, 18, **dict(IMPORT_ONLY, ImportBatch='1'))]),
           gen('Gen_Imp.cfg', 'MC_Imp.tla', universe_extra=OFFSET, filter=one_task_at_a_time,
               quick=[dict(SIM(20, 14, **dict(IMPORT_ONLY, InitAbsent='{"w1", "w2"}')), sample=12), dict(SIM(12, 14, **IMPORT_ONLY), sample=8)],
               thorough=[dict(SIM(300, 16, **dict(IMPORT_ONLY, InitAbsent='{"w1", "w2"}')), sample=160), dict(SIM(150, 16, **IMPORT_ONLY), sample=80)])],
@@ -485,11 +596,17 @@ PLAN_C08 = dict(
               quick=[SIM(60, 16, **dict(REMOVE_ONLY, **MS))],
               thorough=[SIM(1500, 18, **dict(REMOVE_ONLY, **MS)), SIM(1000, 18, **dict(LIFE, Crashes='TRUE', **MS))]),
           gen('Gen_Pay.cfg', 'MC_Pay.tla', mode='free', filter=no_crash,
-              quick=[SIM(40, 16, **LIFE)],
+              quick=[SIM(15, 16, **LIFE)],
               thorough=[SIM(1500, 18, **LIFE)]),
           gen('Gen_Stake.cfg', 'MC_Stake.tla', universe_extra=STAKE_X, mode='free', filter=no_crash,
-              quick=[SIM(40, 16, **REMOVE_ONLY)],
-              thorough=[SIM(1500, 18, **LIFE)])],
+              quick=[SIM(15, 16, **REMOVE_ONLY)],
+              thorough=[SIM(1500, 18, **LIFE)]),
+          gen('Gen_Pay.cfg', 'MC_Pay.tla', mode='trace', filter=no_crash,
+              quick=[SIM(40, 16, **LIFE)],
+              thorough=[SIM(1500, 18, **LIFE)]),
+          gen('Gen_Stake.cfg', 'MC_Stake.tla', universe_extra=STAKE_X, mode='trace', filter=free_runnable,
+              quick=[SIM(40, 16, **dict(REMOVE_ONLY, **MS))],
+              thorough=[SIM(1000, 18, **dict(LIFE, **MS))])],
     assume=['a removal deletes fewer than 20000 credits, i.e. it completes in one removal round after the first phase',
             'with MultiStep the removal is two model steps (RemoveStepA: phase 1, RemoveStepB: the round of phase 2) and block steps fall between them; mode "free": follower and worker run without step gates, only the final ledger is compared'],
 )
